@@ -215,6 +215,12 @@ fn one<T: Serialize + for<'de> Deserialize<'de> + PartialEq + std::fmt::Debug>(x
     let reply = match &v { Ok(v) => format!("ok {}", show_value(v)), Err(e) => show_ser_err(e) };
     out.cur = format!("serde ser {}", sdata);
     lines.push((format!("serde ser {}", sdata), reply));
+    // serializability agrees with serde_json (both accept, or both refuse: e.g. non-string map keys
+    // that neither can render)
+    {
+        let sj_ok = serde_json::to_value(x).is_ok();
+        out.oracle(v.is_ok() == sj_ok, "to_value(x) succeeds exactly when serde_json::to_value(x) does", || format!("json-syntax {} / serde_json ok={}", reply_brief(&v), sj_ok));
+    }
     if let Ok(v) = v {
         if roundtrip {
             match json_syntax::from_value::<T>(v.clone()) {
@@ -236,6 +242,10 @@ fn one<T: Serialize + for<'de> Deserialize<'de> + PartialEq + std::fmt::Debug>(x
             Err(_) => {}
         }
     }
+}
+
+fn reply_brief(v: &Result<Value, json_syntax::SerializeError>) -> String {
+    match v { Ok(_) => "ok".into(), Err(e) => show_ser_err(e) }
 }
 
 pub fn show_ser_err(e: &json_syntax::SerializeError) -> String {
